@@ -666,3 +666,5 @@ def run(ctx):
     if sn is not None:
         for s_, res_, key_ in bodies(ctx):
             r48(ctx, s_, result=res_, KEY=key_)
+    # R9 GEOMETRY (= C16.R1/R2): set_ep, the castling rook squares and the double-step test read the geometry tables
+    tables_dep(ctx, 'C02.R9', ['board::Board::make_move', 'board::Board::make_move_new'])
